@@ -737,12 +737,39 @@ package classifier
 //@   ensures !(err == nil && hasSuffix(path, "txt")) ==> same(files, old(files))
 //@   props C12 C10
 //@
+//@ // qualifies(dir, f): f lies at depth >= 3 below dir (its relative path has
+//@ // at least three segments; relOK: filepath.Rel succeeds). added counts the
+//@ // AddContent calls; it equals the number of qualifying files among those
+//@ // processed so far, so each qualifying file is added exactly once, and a nil
+//@ // error is returned only after every collected file has been processed.
+//@ spec relOK(dir string, f string) bool
+//@ spec qualCount(fs []string, n int, dir string) int reads E:string
+//@ lemma qualCount-def: forall fs []string, dir string :: qualCount(fs, 0, dir) == 0 && (forall n int :: 0 <= n && n < len(fs) ==> qualCount(fs, n+1, dir) == qualCount(fs, n, dir) + ite(relOK(dir, fs[n]) && nsep(relPath(dir, fs[n]), runeStr(47)) + 1 >= 3, 1, 0))
+//@ ghostvar added int
+//@ ghostvar processed int
+//@ ghostvar filesG []string
+//@ // ioFailed: the walk or a file read reported an error; LoadLicenses returns
+//@ // an error only then (a shallow or otherwise ignored file is not an error)
+//@ ghostvar ioFailed bool
+//@
 //@ func (*Classifier).LoadLicenses
+//@   uses qualCount-def
 //@   requires wfClassifier(c)
 //@   ensures wfClassifier(c)
+//@   ensures [all-files-processed] result == nil ==> processed == len(filesG) && added == qualCount(filesG, len(filesG), dir)
+//@   ensures [errors-only-from-io] result != nil ==> ioFailed
+//@   ghostset added = 0 atentry
+//@   ghostset ioFailed = false atentry
+//@   ghostset ioFailed = ioFailed || result != nil after Walk
+//@   ghostset ioFailed = ioFailed || result1 != nil after ReadFile
+//@   ghostset filesG = files after Walk
+//@   ghostset added = added + 1 after AddContent
+//@   ghostset processed = value onstore rangeindex
+//@   callreq AddContent requires bytesOf(arg_content) == fileContent(f)
+//@   loop 1 invariant same(filesG, files) && processed == rangeindex && added == qualCount(files, rangeindex + 1, dir)
 //@   callreq AddContent requires hasSuffix(f, "txt") && sep == runeStr(47) && nsep(relPath(dir, f), sep) + 1 >= 3
 //@   callreq AddContent requires category == splitSeg(relPath(dir, f), sep, 0) && name == splitSeg(relPath(dir, f), sep, 1) && variant == splitSeg(relPath(dir, f), sep, 2)
-//@   loop 1 invariant wfClassifier(c) && allTxt(files)
+//@   loop 1 invariant wfClassifier(c) && allTxt(files) && !ioFailed
 //@   props C12 C10
 //@
 //@ func (*Classifier).SetTraceConfiguration
